@@ -4,7 +4,7 @@ CONSTANTS
  MaxReinit = 0 BSChoices = {} FixBlockSize = TRUE  FixLostWorker = TRUE
  CountCalls = TRUE
  NW = 3  NW0 = 3  NWChoices = {3}  BS = 3  Total = 10  Chunk = 2  HdrSz = 2  TailSz = 3
- Timeout = TRUE  Spurious = TRUE  MayFail = TRUE
+ Timeout = TRUE  Spurious = TRUE  MayFail = TRUE MayFailMain = FALSE
  Gives = {0, 1, 4, 100}  Spaces = {0, 1, 3, 100}
  FlushActs = {"FULL_FLUSH", "FULL_BARRIER"}
  MaxCalls = 40
